@@ -1,13 +1,13 @@
 (* C09 — the whole-dataset tree profile balances on every branch. *)
 From Coq Require Import List Arith Bool String.
-From PyHam Require Import Tax Ortho Mapper Preds Profile.
-From PyHam.proofs Require Import ProfileFacts.
+From PyHam Require Import Tax Ortho Loader Mapper Preds Profile Whole.
+From PyHam.proofs Require Import ProfileFacts WholeFacts.
 Import ListNotations.
 
 (* every non-root node a :: u carries the size of its genome and the counts of the vertical
    comparison with its parent u, and they balance *)
 Theorem c09_balance : forall t fo a u,
-  wfb t fo = true ->
+  wfbc t fo = true ->
   exists ft, full_node fo (a :: u) = (a :: u, List.length (genome_refs fo (a :: u)), Some ft) /\
     List.length (genome_refs fo (a :: u)) + ft_lost ft =
       List.length (genome_refs fo u) + ft_gain ft + ft_duplication ft /\
@@ -32,6 +32,20 @@ Theorem c09_total : forall t fo,
 Proof. exact profile_total. Qed.
 Print Assumptions c09_total.
 
+(* end to end: for every consistent input the whole-dataset profile of the loaded forest balances on every branch *)
+Theorem c09_every_consistent_input : forall t d hs,
+  consistent t d hs ->
+  exists l, load t d = Ok l /\ forall a u,
+    let fo := forest_of l in
+    exists ft, full_node fo (a :: u) = (a :: u, List.length (genome_refs fo (a :: u)), Some ft) /\
+      List.length (genome_refs fo (a :: u)) + ft_lost ft = List.length (genome_refs fo u) + ft_gain ft + ft_duplication ft /\
+      List.length (genome_refs fo (a :: u)) = ft_retained ft + ft_dupl ft + ft_gain ft.
+Proof.
+  intros t d hs Hc. destruct (consistent_forest t d hs Hc) as (l & El & Hw & _). exists l. split; [exact El|].
+  intros a u fo. destruct (balance t (forest_of l) a u Hw) as (ft & H1 & H2 & H3 & _). exists ft. auto.
+Qed.
+Print Assumptions c09_every_consistent_input.
+
 Definition m0 : hmeta := {| m_id := None; m_og := None; m_props := []; m_scores := []; m_synth := false |}.
 Definition tr : stree :=
   SNode "R" [SNode "X" []; SNode "M" [SNode "E" [SNode "H" []; SNode "P" []]; SNode "C" []]].
@@ -42,7 +56,7 @@ Definition fam : hog :=
 Definition fo0 : forest := {| fo_tops := [fam]; fo_singles := [HGene "h9" [0; 0; 1]] |}.
 (* no family reaches the root R: the profile is still defined, the root has 0 genes *)
 Example c09_nonvacuous :
-  wfb tr fo0 = true /\ names_unique tr = true /\
+  wfbc tr fo0 = true /\ names_unique tr = true /\
   match profile_full tr fo0 with
   | Ok l => map (fun x => snd (fst x)) l = [0; 0; 1; 2; 3; 1; 1]
   | Err _ => False
